@@ -202,6 +202,20 @@ def case(item):
                 pre.append(('flag', rnd.choice(fl), 1))
         for _ in range(rnd.randint(1, 3)):
             pre.append((rnd.choice(editops), rnd.choice(srcs)))
+        flip_targets = None
+        if rnd.random() < 0.3:
+            # a target that recorded a checksum in its last build stops calling redo-stamp (or starts to): built with it in the
+            # pre-history, its rule flipped, an input below it edited, so that the compared run rebuilds it the other way
+            st = [n for n in p.order if p.targets[n].get('stamp') and p.dependents(n) and any(d in p.sources for d in p.curdeps(n))]
+            if st:
+                s_ = rnd.choice(st)
+                up = rnd.choice(sorted(p.dependents(s_)))
+                pre.append(('build', [up], dict(j=1, keep=False, forced=False)))
+                pre.append(('stampflip', s_))
+                pre.append(('edit_r', rnd.choice([d for d in p.curdeps(s_) if d in p.sources])))
+                sets['prehistory_kinds'] = ['stampflip']
+                direct = [n for n in p.order if s_ in p.curdeps(n)]
+                flip_targets = direct[:4] if len(direct) >= 2 else [up]
         if rnd.random() < 0.25:
             pre = pre[1:]           # sometimes the compared run is the very first build
         for op in pre:
@@ -214,6 +228,8 @@ def case(item):
         k = 1 if rnd.random() < 0.6 else rnd.randint(2, min(4, len(p.order)))
         targets = [rnd.choice(tops)] if k == 1 else rnd.sample(p.order, k)
         forced = rnd.random() < 0.25 and k == 1
+        if flip_targets and rnd.random() < 0.8:
+            targets, forced = list(flip_targets), False       # everything that asks for the flipped target directly, in one command
         base = ['redo'] if forced else ['redo-ifchange']
         snapA0, snapB0 = snapshot(A), snapshot(B)
         if snapA0 != snapB0:
